@@ -110,6 +110,8 @@ func TestC08(t *testing.T) {
 	h.Run(c, "trysignal", 1, genTrySignal, oracleTrySignal)
 	c.Rule("forin_nan: a map of 0-5 entries, 0-3 of them under a key that does not equal itself (a float64 NaN bound by the host or computed as z = 0.0; z / z; in host-bound Go maps also a float32, a complex128, an array and a struct key holding a NaN), built by index assignments, a map literal, make(map[float64]int64) or bound as a Go map of eight types, under a one- or two-variable for-in loop that reports every pass / counts / sums / deletes other (ordinary) entries meanwhile / breaks after pass j / continues at one kind of entry / returns from the enclosing function at the first such entry / is nested in or around a C-style loop; every entry that is not deleted is visited exactly once (order-independent comparison: multisets and counters); non-trivial = the map has at least one such entry; distinct by map type and source text")
 	h.Run(c, "forin_nan", c.N(2500, 25000), genForinNan, oracleForinNan)
+	c.Rule("switch_again: the control generator with one more pattern (internal/prog/gen_switchagain.go, about a third of all statements): ONE switch with 2-5 cases whose lists overlap - the same number in two lists in any of its spellings 1 / 1.0 / \"1\" / \"1.0\", probe calls, variables and sums of the loop counter that come to equal the subject on a later pass, true/false/comparisons, nil twice - run 2-6 times by a for-in loop over a list literal or variable, a C-style loop or a `for cond` loop over an index, or a descending counter that is the subject, inside one invocation of a named function / function value (called once or twice) or inline (top level included), the subjects ordered so that a later case matches before a subject arrives that equals an expression of that case and of an earlier one; case bodies log their index (probe, or a string returned / reported afterwards), assign the case variables, continue, break, return; the reference interpreter takes the first case in source order one of whose expressions equals the subject (equality as the C06 statement decides it); non-trivial = some pass took a case standing before the case the same statement took the time before in the same invocation, while that later case lists a value equal to the subject too; distinct by source text")
+	h.Run(c, "switch_again", c.N(2500, 25000), genSwitchAgain, oracleSwitchAgain)
 }
 
 var probeInDetail = regexp.MustCompile(`(?:model|anko) "p i:(-?[0-9]+)`)
